@@ -645,6 +645,11 @@ class Interp(Ops, Builtins, DynOps):
             return
         if o.kind == "opaque":
             return self.ext_setitem(o, i, v, node)
+        if o.kind == "ref" and o.rkind == "obj" and o.cls is not None and not isinstance(o.cls, str):
+            f = o.cls.find_method(self.index, "__setitem__")
+            if f is not None:
+                self.call_function(f, [o, i, v], {}, node)
+                return
         raise EngineError(f"item store on {o} (line {getattr(node, 'lineno', '?')})")
 
     # ------------------------------------------------------------------ comprehensions
